@@ -328,7 +328,7 @@ def ndbc_date_columns(repo, rep):
 
 
 def run(repo, rep, tier):
-    rep.rule("R-C13-10", "every parameter of the functions behind this property is read (file readers): none is accepted and then ignored")
+    rep.rule("R-C13-10", "every parameter of the functions behind this property is read (file readers): none is accepted and then ignored, and no control parameter (cutoff, limit, tolerance, window, count, switch) is replaced by another value before use (coercion and default filling aside)")
     from .shared import unused_parameters
     unused_parameters(repo, rep, "R-C13-10", ("wavespectra.input", "wavespectra.core.swan"), "file readers")
     rep.rule("R-C13-1", "conversion steps carry the right factor and convention: per-radian -> per-degree (pi/180), J -> variance by rho g only for energy "
